@@ -16,6 +16,12 @@ def dispatch(prop):
     if prop == "C14":
         from . import exchange_check
         return exchange_check.c14
+    if prop == "C19":
+        from . import calendar_check
+        return calendar_check.c19
+    if prop == "C06":
+        from . import interest_check
+        return interest_check.c06
     raise SystemExit("no check registered for %s" % prop)
 
 
